@@ -142,6 +142,63 @@ Definition vaxis_modes (t : T.term) : bool :=
   T.m_awm (T.t_md t) && negb (T.m_irm (T.t_md t)) && negb (T.cs_ss (T.t_cs t)) &&
   (T.des_of (T.t_cs t) =? 0) && (T.t_top t =? 0) && (T.t_bot t =? T.height t - 1).
 
+(* ------------------------------------------------------------------ a size change *)
+
+(* The host resizes the emulator with T.resize (term.go resize): both screens are reallocated
+   and the old PRIMARY screen is re-printed up to the cursor row, each cell with its own
+   style.  Everything emu_rel asks for survives (proofs/EmuResize.v) except the pen: resize
+   leaves the style of the last re-printed cell in it.  [resize_pen] is that style, computed
+   the way resize walks the old screen. *)
+Definition last_style (cells : list T.tcell) (p : S.style) : S.style :=
+  fold_left (fun _ c => T.c_st c) cells p.
+
+Fixpoint resize_pen_rows (n0 : Z) (rows : list T.trow) (r last : Z) (p : S.style) : S.style :=
+  match rows with
+  | [] => p
+  | line :: rest =>
+      if r =? last then p
+      else resize_pen_rows n0 rest (r + 1) last (last_style (firstn (Z.to_nat n0) line) p)
+  end.
+
+Definition resize_pen (t : T.term) : S.style :=
+  let old := T.t_prim t in
+  resize_pen_rows (match old with [] => 0 | l :: _ => zlen l end) old 0 (T.t_row t) (T.t_pen t).
+
+Definition pen_showsb (p : S.style) (tp : tpen) (tl : tlink) : bool :=
+  tpen_eqb (shown cp_full (to_rstyle p)) tp && tlink_eqb (shown_link (to_rstyle p)) tl &&
+  (0 <=? S.attr (S.spen p)) && (S.attr (S.spen p) <? 256).
+
+(* the one clause of emu_rel a resize can break, as a decidable predicate on the emulator
+   state before the resize: the pen it leaves shows what the pen showed *)
+Definition resize_pen_ok (t : T.term) : bool :=
+  pen_showsb (resize_pen t) (shown cp_full (to_rstyle (T.t_pen t))) (shown_link (to_rstyle (T.t_pen t))).
+
+(* the reference terminal after a size change, as seen from the resized emulator [t2]: the new
+   size, nothing known about any cell, the cursor wherever the emulator has it; pen, hyperlink,
+   DECTCEM, shape, mode 2026 and pointer shape are what they were (RenderHistory.resized) *)
+Definition ref_resized (r : term) (t2 : T.term) : term :=
+  {| tm_rows := T.height t2; tm_cols := T.width t2; tm_grid := fun _ _ => DPoison;
+     tm_row := T.t_row t2; tm_col := if T.t_last t2 then T.width t2 else T.t_col t2;
+     tm_pen := tm_pen r; tm_link := tm_link r; tm_vis := tm_vis r; tm_shape := tm_shape r;
+     tm_sync := tm_sync r; tm_mouse := tm_mouse r |}.
+
+(* the situation of a Vaxis application: it runs on the alternate screen (mode 1049 set) and the
+   primary screen underneath holds only cells in the default style - then the resize leaves a
+   default pen and [resize_pen_ok] is not needed *)
+Definition cell_plainb (c : T.tcell) : bool := pen_showsb (T.c_st c) tpen0 ([], []).
+Definition alt_plainb (t : T.term) : bool :=
+  T.t_onalt t && T.m_smcup (T.t_md t) && forallb (forallb cell_plainb) (T.t_prim t).
+
+(* what Vaxis' start-up leaves in the emulator besides well-formedness and the modes: the
+   default pen, the cursor hidden, the deferred-wrap flag only on the last column *)
+Definition start_ok (t : T.term) : bool :=
+  pen_showsb (T.t_pen t) tpen0 ([], []) && negb (T.m_tcem (T.t_md t)) &&
+  (negb (T.t_last t) || (T.t_col t =? T.width t - 1)).
+
+(* the reference terminal of which nothing is known but what [start_ok] says, as seen from [t] *)
+Definition ref_start (t : T.term) : term :=
+  ref_resized (set_shape (term_unknown (T.height t) (T.width t)) (T.t_shape t)) t.
+
 (* ------------------------------------------------------------------ decidable forms, for the checks *)
 
 Definition fitsb (tw : list Z -> Z) (r : term) (k : tok) : bool :=
@@ -165,46 +222,17 @@ Fixpoint side_holds (tw : list Z -> Z) (s : vstate) (r : term) (fs : list eframe
   | [] => true
   | f :: rest =>
       let s1 := fold_left apply_op (ef_ops f) s in
-      if grid_ok tw tw term_caps (v_next s1) then
-        let '(s', o) := do_frame s (ef_ops f) (ef_end f) in
-        toks_okb tw r o && side_holds tw s' (compact (interp tw r o)) rest
-      else true
+      match ef_end f with
+      | FResize rows2 cols2 => side_holds tw (do_resize s1 rows2 cols2) (resize_term r rows2 cols2) rest
+      | _ =>
+        if grid_ok tw tw term_caps (v_next s1) then
+          let '(s', o) := do_frame s (ef_ops f) (ef_end f) in
+          toks_okb tw r o && side_holds tw s' (compact (interp tw r o)) rest
+        else true
+      end
   end.
 
 Definition c12_side_holds (c : ecase) : bool :=
   side_holds (lookup_w (e_widths c)) (vinit term_caps (e_rows c) (e_cols c))
              (term_unknown (e_rows c) (e_cols c)) (e_frames c).
 
-(* the emulator model run on the model's tokens of every frame: its grid and cursor satisfy the
-   predicate evaluated on the real emulator (start state: New(), first resize, cursor hidden) *)
-Fixpoint model_holds (tw : list Z -> Z) (rows cols : Z) (s : vstate) (t : T.term) (fs : list eframe) : bool :=
-  match fs with
-  | [] => true
-  | f :: rest =>
-      let s1 := fold_left apply_op (ef_ops f) s in
-      if grid_ok tw tw term_caps (v_next s1) then
-        let '(s', o) := do_frame s (ef_ops f) (ef_end f) in
-        match emu_toks tw t o with
-        | T.TOk t' =>
-            grid_shows term_caps (v_next s1) (grid_of t') && cursor_shows rows cols (v_cnext s1) (ecursor_of t') &&
-            model_holds tw rows cols s' t' rest
-        | _ => false
-        end
-      else true
-  end.
-
-Definition emu_start (cols rows : Z) : T.term :=
-  match T.term_start cols rows with
-  | T.TOk t => T.set_md t (T.md_tcem (T.t_md t) false)
-  | _ => T.term_new
-  end.
-
-Definition c12_model_holds (c : ecase) : bool :=
-  model_holds (lookup_w (e_widths c)) (e_rows c) (e_cols c) (vinit term_caps (e_rows c) (e_cols c))
-              (emu_start (e_cols c) (e_rows c)) (e_frames c).
-
-(* violations of C12 on one observed history: the property on the real emulator's grid, cursor
-   and Draw output (EmuSpec.c12_holds), the side condition of the proof, and the emulator
-   model on the same tokens *)
-Definition c12_violations_all (cases : list ecase) : list Z :=
-  bad_indices (fun c => negb (c12_holds c && c12_side_holds c && c12_model_holds c)) cases.
